@@ -214,6 +214,10 @@ class C06(Property):
     min_nontrivial = {"quick": 1000, "thorough": 100000}
 
     def gen(self, rnd, i, tier):
+        if i % 30 == 7:
+            # late starter publishing gridded, partly masked initial data: both initial publications must carry it unchanged
+            return dict(kind="masked_offset", own_start=rnd.choice([1, 2, 5]), mseed=rnd.randrange(1 << 30), order=rnd.sample(range(2), 2),
+                        via=rnd.choice([None, None, "scale", "next"]), consumer_start=rnd.choice([0, 0, 1]))
         if i % 3 == 2:
             spec = gen_coupling.gen_dag(rnd, cycle=None, pull_prob=0.2)
             spec["kind"] = "offsets"
@@ -236,9 +240,108 @@ class C06(Property):
         out.sample = spec
         if spec["kind"] == "offsets":
             self._offsets(out, spec)
+        elif spec["kind"] == "masked_offset":
+            self._masked_offset(out, spec)
         else:
             self._protocol(out, spec)
         return out
+
+    def _masked_offset(self, out, spec):
+        from ..record import REC, install
+
+        rng = np.random.default_rng(spec["mseed"])
+        grid = fm.UniformGrid((3, 4))
+        mask = rng.random((2, 3)) < 0.4
+        mask[0, 0], mask[1, 2] = True, False
+        vals = np.arange(6.0).reshape(2, 3) + 10.0
+        own = T0 + H(spec["own_start"])
+
+        class Late(fm.TimeComponent):
+            def __init__(self):
+                super().__init__()
+                self._time = own
+
+            def _next_time(self):
+                return self.time + H(1)
+
+            def _initialize(self):
+                self.outputs.add(name="o", time=self.time, grid=grid, units="m")
+                self.create_connector()
+
+            def _connect(self, st):
+                self.try_connect(st, push_data={"o": np.ma.array(vals.copy(), mask=mask.copy())})
+
+            def _validate(self):
+                pass
+
+            def _update(self):
+                self._time = self._next_time()
+
+            def _finalize(self):
+                pass
+
+        class Reader(fm.TimeComponent):
+            def __init__(self):
+                super().__init__()
+                self._time = T0 + H(spec["consumer_start"])
+
+            def _next_time(self):
+                return self.time + H(1)
+
+            def _initialize(self):
+                self.inputs.add(name="i", time=self.time, grid=grid, units="m")
+                self.create_connector(pull_data=["i"])
+
+            def _connect(self, st):
+                self.try_connect(st)
+
+            def _validate(self):
+                pass
+
+            def _update(self):
+                self._time = self._next_time()
+
+            def _finalize(self):
+                pass
+
+        comps = [Late(), Reader()]
+        composition = fm.Composition([comps[i] for i in spec["order"]], print_log=False, log_level=logging.CRITICAL + 10)
+        x = comps[0].outputs["o"]
+        if spec["via"]:
+            x = x >> (fm.adapters.Scale(1.0) if spec["via"] == "scale" else fm.adapters.NextTime())
+        x >> comps[1].inputs["i"]
+        install()
+        REC.reset()
+        pushes = []
+        REC.on("out_push_data", lambda o, data, time=None: pushes.append((time, np.ma.getdata(fm.data.get_magnitude(data) if fm.data.is_quantified(data) else data).copy(),
+                                                                         np.ma.getmaskarray(fm.data.get_magnitude(data) if fm.data.is_quantified(data) else data).copy())))
+        try:
+            composition.connect(T0)
+        except Exception as e:  # pylint: disable=broad-except
+            out.viol("offset_connect_failed", f"connect() with a late starter publishing masked data raised {type(e).__name__}: {str(e)[:200]}", spec=spec)
+            return
+        finally:
+            REC.reset()
+        out.count("masked_late_starters")
+        times = [t for t, _, _ in pushes]
+        if sorted(times) != [T0, own]:
+            out.viol("missing_publication_at_own_start", f"late starter published its initial data at {[hrs(t) for t in times]}, expected the composition start and its own start {hrs(own)}h", spec=spec)
+            return
+        for t, d, m in pushes:
+            if not np.array_equal(m.reshape(mask.shape), mask) or not np.array_equal(d.reshape(vals.shape)[~mask], vals[~mask]):
+                out.viol("initial_publication_altered", f"initial publication for {hrs(t)}h differs from the data the component handed over: mask {m.astype(int).tolist()} expected {mask.astype(int).tolist()}", spec=spec)
+                return
+        got = comps[1].connector.in_data["i"]
+        gm = np.ma.getmaskarray(got.magnitude)[0]
+        if not np.array_equal(gm, mask) or not np.allclose(np.ma.getdata(got.magnitude)[0][~mask], vals[~mask]):
+            out.viol("initial_value", f"initial pull delivered mask {gm.astype(int).tolist()}, the producer's initial data has {mask.astype(int).tolist()}", spec=spec)
+            return
+        # what the output serves for its own start time is the initial data as well
+        served = comps[0].outputs["o"].get_data(own, None) if not spec["via"] else None
+        if served is not None and not np.array_equal(np.ma.getmaskarray(served.magnitude)[0], mask):
+            out.viol("initial_publication_altered", f"data served for the producer's own start lost its mask", spec=spec)
+            return
+        out.key = "moff:" + repr(sorted((k, repr(v)) for k, v in spec.items()))
 
     def _protocol(self, out, spec):
         import hashlib
@@ -377,7 +480,7 @@ class C06(Property):
         out.key = "off:" + hashlib.md5(repr(spec).encode()).hexdigest()[:12]
 
     def coverage_gaps(self, counters, tier):
-        need = ["protocol_cases", "offset_cases", "late_starters_with_output_time_taken_from_an_input", "converged", "stall_errors", "stall_errors_with_2plus_stuck", "stall_errors_with_connected_bystanders",
+        need = ["protocol_cases", "masked_late_starters", "offset_cases", "late_starters_with_output_time_taken_from_an_input", "converged", "stall_errors", "stall_errors_with_2plus_stuck", "stall_errors_with_connected_bystanders",
                 "connect_calls_judged", "initial_pulls_checked", "double_initial_publications_expected", "iterations_3", "iterations_5"]
         return [f"{k} never observed" for k in need if not counters.get(k)]
 
